@@ -312,8 +312,9 @@ pub fn emit(prog: &Program) -> Emitted {
     emit_with(prog, false)
 }
 
-/// `trivia`: every recorded identifier is followed by a blank and a comment; the recorded ranges
-/// still cover the identifier only.
+/// `trivia`: every recorded identifier is followed by a blank and a comment (the recorded ranges
+/// still cover the identifier only), field definitions carry the optional `field` keyword and
+/// else-if chains are written without braces.
 pub fn emit_with(prog: &Program, trivia: bool) -> Emitted {
     let mut e = Emitter {
         prog,
@@ -917,6 +918,10 @@ impl<'p> Emitter<'p> {
             match it {
                 BI::Field { doc, blank, ty, name, init } => {
                     self.doc(doc, *blank);
+                    // the optional `field` keyword belongs to the definition it introduces
+                    if self.trivia {
+                        self.w("field ");
+                    }
                     self.ty(ty);
                     self.w(" ");
                     let owner = self.recs[rec].name.clone();
